@@ -20,4 +20,4 @@ try:
             print(p, v[:1], [f[:260] for f in first], flush=True)
     print('alarms:', [p for p, rc, _, _ in out if rc != 0])
 finally:
-    sh('git -C %s checkout -- .' % MUT)
+    sh('git -C %s checkout -- . && ( [ "$(realpath %s)" = /repo ] || git -C %s clean -fdq )' % (MUT, MUT, MUT))
